@@ -24,7 +24,7 @@ def run(tier):
     parts = story_item_parts(tier, [mon_unchanged_on_raise])
     names = list(coll.pool_messages())
     L = 3 if tier == 'quick' else 4
-    seqs = list(c09.sequences(names[:10] if tier == 'quick' else names, L))
+    seqs = list(c09.sequences(names[:11] if tier == 'quick' else names, L))
     nasty = list(c09.sequences(list(coll.pool_nasty()), 2 if tier == 'quick' else 3))
     enum_parts = [{'label': 'collection-sequences', 'worker': c09.worker, 'items': seqs, 'opts': {'c05': True}, 'chunk': 40},
                   {'label': 'collection-sequences-self-referential', 'worker': c09.worker, 'items': nasty, 'opts': {'c05': True, 'nasty': True}, 'chunk': 40}]
